@@ -288,9 +288,13 @@ class LoggedFS:
             n = self._point('ropen', rel)
             self.log.append({'k': 'ropen', 'p': rel, 'n': n})
             inj = self._due(n)
-            if inj is not None:
+            if inj is not None and inj.phase != 'after':
                 self._fire(inj)
-            return _REAL['open'](file, mode, *args, **kwargs)
+            real = _REAL['open'](file, mode, *args, **kwargs)
+            if inj is not None:          # opened, then interrupted: the reader is dropped on unwinding
+                real.close()
+                self._fire(inj)
+            return real
         n = self._point('open', rel)
         inj = self._due(n)
         if inj is not None and inj.phase == 'before':
@@ -577,7 +581,7 @@ def crash_images(log, initial=None, classes=None):
 def interrupt_points(log, classes=None, inside='classes'):
     """Injection points derived from the log of a failure-free execution.
     Returns [(ordinal, phase, offset, kind)].
-      open/create/replace/remove: 'before' and 'after';  close: 'after';  ropen/mark: 'before';
+      open/create/replace/remove/ropen: 'before' and 'after';  close: 'after';  mark: 'before';
       write: 'before', and 'inside' at offsets chosen by `inside`:
          'all'      every byte offset 1..len-1
          'mid'      len//2 (writes of at least 2 bytes)
@@ -596,7 +600,10 @@ def interrupt_points(log, classes=None, inside='classes'):
                 sess_off[ev['h']] = 0
         elif k == 'close':
             pts.append((n, 'after', 0, k))
-        elif k in ('ropen', 'mark'):
+        elif k == 'ropen':
+            pts.append((n, 'before', 0, k))
+            pts.append((n, 'after', 0, k))
+        elif k == 'mark':
             pts.append((n, 'before', 0, k))
         elif k == 'write':
             start = sess_off.get(ev['h'], 0)
